@@ -25,6 +25,12 @@ docs/src/metrics/METRICS_FROM_HOOKS.md, structured like MetricStorage.SendBatch)
      syntax with the deprecated add/set shortcuts - and after every batch compares Gatherer.Gather(), projected to
      the abstract registry, and the error result with TLC's expectation.  A history stops at its first difference.
 
+Truncated files: an operation with `cut` = string | colon | labels is the LAST operation of its batch and stands for a
+metrics file that ends in the middle of that JSON document (inside the name string, right after a colon, inside the
+labels object).  It is an invalid operation in the reference (Valid demands cut = ""), so TLC's expectation is "error,
+registry unchanged" - also when valid operations (a group's replacement) precede it in the file.  The harness writes
+such a batch as a file in all three renderings (constructed operations cannot express it).
+
 Oracle (exactly the statement): error iff the batch contains an invalid operation, and then nothing changed;
 otherwise the set of series (name, non-empty labels incl. hook), their kind and value (histograms: count and sum)
 equal the reference registry.  The group of a series is not observable through Gather and is not compared.
@@ -36,7 +42,7 @@ or the statement is silent):
   - two groups, or a group and an ungrouped operation, claiming the same (name, labelset);
   - one metric name used with two kinds (counter/gauge/histogram) anywhere in a history;
   - negative values, operations carrying their own `hook` label, empty label values, `expire` with a name,
-    unparsable JSON (the decoder's business, C12).
+    unparsable JSON other than a truncated last operation (the decoder's business, C12).
   - For a batch with an ungrouped operation whose label *names* differ from the first ungrouped use of that name the
     statement allows two readings (valid: it is applied; invalid: the whole batch is refused, nothing changes); both
     outcomes are accepted, anything else (op dropped, success reported) is a failure.
@@ -155,6 +161,8 @@ def short_op(o):
                          ",".join("%s=%s" % (p[0], p[1]) for p in o["labels"]))
     if o["value"] >= 0:
         s += " %g" % (o["value"] / 2.0)
+    if o.get("cut"):
+        s += " <file ends inside this operation: %s>" % o["cut"]
     return s
 
 
@@ -187,7 +195,8 @@ def coverage_stats(ctx, cases):
     nontrivial = set()
     feat = {"batches": 0, "rejected_batches": 0, "group_replacing_batches": 0, "explicit_expire_ops": 0,
             "batches_with_two_groups": 0, "names_shared_across_groups": 0, "histories_with_two_hooks": 0,
-            "fractional_results": 0, "label_shapes_mixed_under_one_name": 0, "open_finding_input_classes": 0}
+            "fractional_results": 0, "label_shapes_mixed_under_one_name": 0, "open_finding_input_classes": 0,
+            "truncated_files": 0, "truncated_files_with_operations_before_the_cut": 0}
     for c in cases:
         key = json.dumps(c["batches"], sort_keys=True)
         if key in distinct:
@@ -201,6 +210,10 @@ def coverage_stats(ctx, cases):
             hooks.add(b["hook"])
             if b["err"]:
                 feat["rejected_batches"] += 1
+            if b["ops"] and b["ops"][-1].get("cut"):
+                feat["truncated_files"] += 1
+                if len(b["ops"]) > 1:
+                    feat["truncated_files_with_operations_before_the_cut"] += 1
             groups = {o["group"] for o in b["ops"] if o["group"]}
             if not b["err"]:
                 if any(s["group"] in groups for s in pre):
@@ -332,7 +345,8 @@ MANIFEST = {
              "apply, then ungrouped operations) for AtomicValidation, GroupReplaced, OthersUntouched, ValueRules and GroupOrderIrrelevant: "
              "exhaustively over all histories of two operations, all single batches of three operations on one name and <= 2 batches x <= 2 "
              "operations (history hidden by a VIEW), and along simulated behaviours of "
-             "4 batches x <= 3 operations (2 names, 3 label shapes, 2 groups, 2 hooks, values in halves, 14 kinds of invalid operation). "
+             "4 batches x <= 3 operations (2 names, 3 label shapes, 2 groups, 2 hooks, values in halves, 14 kinds of invalid operation and a "
+             "metrics file whose last operation is cut off inside a string / after a colon / inside the labels object). "
              "Every exported history is replayed on the real metric_storage.MetricStorage (private registry) in three syntaxes "
              "(constructed operations, file syntax via MetricOperationsFromBytes, deprecated add/set shortcuts); after every batch the "
              "error result and Gatherer.Gather(), projected to the abstract registry, are compared with the registry TLC computed.",
